@@ -12,7 +12,8 @@
    is appended (`if x:` vs `if x is not None:` is the difference between dropping and writing '').
  * maintransformer.py: the control skeleton (statements without docstring and without
    message.* diagnostics) of the functions the model mirrors statement by statement:
-   _apply_annotation_rename_to and _pair_property_accessors.
+   _apply_annotation_rename_to, _pair_property_accessors, _pass_read_annotations2 ((virtual) path),
+   _get_vfunc_block and _pair_class_virtuals.
 
 The model builds its keys with the generated format strings and spells annotations with the
 generated names; `C03_tables` (a `decide` theorem) pins the shapes the model was written for.
@@ -127,7 +128,8 @@ IDENT_ATTRS = ['introspectable', 'version', 'deprecated', 'deprecated-version', 
                'setter', 'getter', 'default-value', 'emitter', 'glib:ref-func', 'glib:unref-func',
                'glib:set-value-func', 'glib:get-value-func', 'copy-function', 'free-function', 'foreign', 'invoker']
 
-SKELETON_FUNCS = ['_apply_annotation_rename_to', '_pair_property_accessors']
+SKELETON_FUNCS = ['_apply_annotation_rename_to', '_pair_property_accessors', '_pass_read_annotations2',
+                  '_get_vfunc_block', '_pair_class_virtuals']
 
 
 def writer_conditions(fn):
